@@ -35,6 +35,7 @@ import (
 //	     encoding of the signed header (the canonical bytes followed by padding): every field reads the same
 //	CS   own genuinely signed COMMIT carrying ANOTHER member's random-seed share (replayed from that member's COMMIT)
 //	PX   own genuine PREPARE / COMMIT for a hash nobody proposed, in the target's current view
+//	NVO  NEW_VIEW whose votes only reach quorum if the vote of an OUTSIDER (valid key, not a member) is counted
 //	NVT  NEW_VIEW whose embedded proposal is genuinely signed but declares another message type (COMMIT) in its header
 //	NVB  NEW_VIEW valid in every signed part whose attached (unsigned) block body is another block (P4 variant)
 //	OUT  outsider-signed PREPARE / COMMIT / VIEW_CHANGE                            (P7)
@@ -81,7 +82,7 @@ func (a *Adv) soupDependent() bool {
 	if a.e.Cfg.Eager {
 		return true
 	}
-	for _, p := range []string{"XT", "CS", "VC", "VCT", "NV", "NVW", "NVH", "NVN", "NVM", "NVE", "NVB", "NVT"} {
+	for _, p := range []string{"XT", "CS", "VC", "VCT", "NV", "NVW", "NVH", "NVN", "NVM", "NVE", "NVB", "NVT", "NVO"} {
 		if a.on(p) {
 			return true
 		}
@@ -486,7 +487,7 @@ func (a *Adv) build(soup []Sent, t *LState) []int {
 		}
 	}
 	// ---- NEW_VIEW in views the adversary leads
-	if a.on("NV") || a.on("NVF") || a.on("NVW") || a.on("NVH") || a.on("NVN") || a.on("NVM") || a.on("NVE") || a.on("NVB") || a.on("NVT") {
+	if a.on("NV") || a.on("NVF") || a.on("NVW") || a.on("NVH") || a.on("NVN") || a.on("NVM") || a.on("NVE") || a.on("NVB") || a.on("NVT") || a.on("NVO") {
 		for v := uint64(1); v <= e.Cfg.MaxView; v++ {
 			if v < t.View {
 				continue
@@ -640,6 +641,37 @@ func (a *Adv) newViews(soup []Sent, t *LState, b primitives.MemberId, v uint64, 
 			if r.IsQuorum(ids) {
 				addRaw(mkNV(nvT{T: protocol.LEAN_HELIX_NEW_VIEW, I: kit.Instance, H: H, V: V, Votes: votes, S: me,
 					PP: brefT{protocol.LEAN_HELIX_PREPREPARE, kit.Instance, H, V, kit.HashOf(z)}, PPS: me}, z), "NVM")
+			}
+		}
+	}
+	if a.on("NVO") && a.out != nil {
+		// own vote + every subset of the genuine proof-less votes that stays BELOW quorum weight + the outsider's vote
+		// (genuinely signed with the outsider's own key): a quorum only for a receiver that gives the outsider weight
+		me := signerT{ID: b, Mode: "valid"}
+		outV := voteT{T: protocol.LEAN_HELIX_VIEW_CHANGE, I: kit.Instance, H: H, V: V, S: signerT{ID: a.out, Mode: "valid"}}
+		var plain []cand
+		for _, c := range pool {
+			if c.pv < 0 {
+				plain = append(plain, c)
+			}
+		}
+		for mask := 0; mask < 1<<uint(len(plain)); mask++ {
+			votes := []voteT{{T: protocol.LEAN_HELIX_VIEW_CHANGE, I: kit.Instance, H: H, V: V, S: me}}
+			ids := map[string]bool{string(b): true}
+			for i, c := range plain {
+				if mask&(1<<uint(i)) != 0 && !ids[c.id] {
+					ids[c.id] = true
+					votes = append(votes, voteT{T: protocol.LEAN_HELIX_VIEW_CHANGE, I: kit.Instance, H: H, V: V, S: signerT{ID: primitives.MemberId(c.id), Mode: "replay", Sig: c.vcm.Content().Sender().Signature()}})
+				}
+			}
+			if r.IsQuorum(ids) || len(votes)+1 < 3 {
+				continue
+			}
+			votes = append(votes, outV)
+			for _, tag := range e.Cfg.Alphabet {
+				x := a.blockFor(h, tag)
+				addRaw(mkNV(nvT{T: protocol.LEAN_HELIX_NEW_VIEW, I: kit.Instance, H: H, V: V, Votes: votes, S: me,
+					PP: brefT{protocol.LEAN_HELIX_PREPREPARE, kit.Instance, H, V, kit.HashOf(x)}, PPS: me}, x), "NVO")
 			}
 		}
 	}
